@@ -174,13 +174,17 @@ impl TestRunnerAdapter {
         parsing_source: Arc<Mutex<dyn ParsingSource>>,
         source_path: P,
         test_case_path: &IdentifierPath,
+        interrupt: Arc<AtomicBool>,
     ) -> MosResult<Box<dyn MachineAdapter + Send + Sync>> {
-        Ok(Box::new(Self::new(
+        let adapter = Self::new(
             launch_args.no_debug.unwrap_or_default(),
             parsing_source,
             source_path,
             test_case_path,
-        )?))
+        )?;
+        // (when the debug server is shutting down, a step that is still waiting for a subroutine to return gives up)
+        adapter.runner.write().unwrap().set_interrupt(interrupt);
+        Ok(Box::new(adapter))
     }
 
     fn update_state(&mut self, new: MachineRunningState) -> MosResult<()> {
